@@ -229,6 +229,8 @@ func scalarSlots(fs []FrameM) []*ArgM {
 
 // DumpOpts bounds the dump generator.
 type DumpOpts struct {
+	MinG       int
+	TypicalG   int // usual upper bound of the goroutine count (default 6); MaxG is reached occasionally
 	MaxG       int
 	MaxFrames  int
 	Variants   bool // indentation / CRLF / level-2 / space-indented file lines
@@ -251,7 +253,11 @@ func genPools(t *rapid.T, o DumpOpts) *pools {
 	if maxF < 1 {
 		maxF = 1
 	}
-	ns := rapid.IntRange(1, 4).Draw(t, "poolStacks")
+	hi := 4
+	if o.PoolHeavy {
+		hi = 2
+	}
+	ns := rapid.IntRange(1, hi).Draw(t, "poolStacks")
 	for i := 0; i < ns; i++ {
 		nf := rapid.IntRange(1, maxF).Draw(t, "poolFrames")
 		var fs []FrameM
@@ -260,11 +266,11 @@ func genPools(t *rapid.T, o DumpOpts) *pools {
 		}
 		p.stacks = append(p.stacks, fs)
 	}
-	nc := rapid.IntRange(1, 3).Draw(t, "poolCreators")
+	nc := rapid.IntRange(1, hi-1).Draw(t, "poolCreators")
 	for i := 0; i < nc; i++ {
 		p.creators = append(p.creators, genCreator(t))
 	}
-	nst := rapid.IntRange(1, 3).Draw(t, "poolStates")
+	nst := rapid.IntRange(1, hi-1).Draw(t, "poolStates")
 	for i := 0; i < nst; i++ {
 		p.states = append(p.states, genState(t))
 	}
@@ -387,9 +393,13 @@ func genDump(t *rapid.T, o DumpOpts) DumpM {
 		d.Level2 = oneIn(t, 4, "level2")
 	}
 	p := genPools(t, o)
-	ng := rapid.IntRange(1, min(o.MaxG, 6)).Draw(t, "ngoroutines")
-	if o.MaxG > 6 && oneIn(t, 10, "many") {
-		ng = rapid.IntRange(7, o.MaxG).Draw(t, "ngoroutines")
+	typ := 6
+	if o.TypicalG > 0 {
+		typ = o.TypicalG
+	}
+	ng := rapid.IntRange(max(1, o.MinG), min(o.MaxG, typ)).Draw(t, "ngoroutines")
+	if o.MaxG > typ && oneIn(t, 10, "many") {
+		ng = rapid.IntRange(typ+1, o.MaxG).Draw(t, "ngoroutines")
 	}
 	ids := genIDs(t, ng)
 	for i := 0; i < ng; i++ {
